@@ -658,6 +658,9 @@ A resume falls in exactly one of three cases, by what the resumed executor does 
           store" along `drive` through local AND remote loads (neither exists), and the parked
           retried load (`pending = some _`, re-run by `wake`) has to be related to the fresh `load`
           that `walk` starts with (`C02.kahn_parked` gives this up to `Sim`);
+          starting points in Lemmas/LoaderReplay.lean: `local_walk` (the record along purely local
+          loads is the fold of `record`, pending attempt included) and `afterResponseP_eq` (how the
+          pending attempt is written by the prologue around `retry`);
        3. records with unsuccessful loads (a missing link met before the pause): not covered by
           `replay_walk` (its induction follows a contiguous prefix);
        4. the second response arriving in several messages interleaved with the resumed loads:
